@@ -301,7 +301,12 @@ class Output(object):
                 else:
                     # Don't use .4g because this will give unnecessary descimals for
                     # location ids
-                    s += "%-*g| " % (desc_lengths[w], descs[w][i])
+                    if np.isfinite(descs[w][i]) and descs[w][i] == np.round(descs[w][i]):
+                        # Whole numbers (e.g. location ids) in full: %g switches to
+                        # exponent notation above 6 digits
+                        s += "%-*d| " % (desc_lengths[w], descs[w][i])
+                    else:
+                        s += "%-*g| " % (desc_lengths[w], descs[w][i])
             for f in range(y.shape[1]):
                 s += "%-*.4g| " % (lengths[f], y[i, f])
             s += "\n"
